@@ -121,12 +121,9 @@ class Sim:
                     if n.split(":")[0] == h:
                         self.addr2name[sa] = n
 
-        _T = self.clock.module_shim()
-        self._saved = hashmod.time
-        hashmod.time = _T
+        self._restore = [self.clock.patch_module(hashmod)]
         import pymemcache.pool as poolmod
-        self._saved_pool = poolmod.time
-        poolmod.time = _T
+        self._restore.append(self.clock.patch_module(poolmod))
         self.ra, self.ign, self.pooling = retry_attempts, ignore_exc, pooling
         extra = {"hasher": ContractOnlyHasher} if own_hasher else {}
         self.hc = hashmod.HashClient(specs, socket_module=self.net, retry_attempts=retry_attempts, retry_timeout=RT,
@@ -152,9 +149,8 @@ class Sim:
         return h.harness_rotation() if isinstance(h, ContractOnlyHasher) else h.nodes
 
     def close(self):
-        self.hashmod.time = self._saved
-        import pymemcache.pool as poolmod
-        poolmod.time = self._saved_pool
+        for r_ in self._restore:
+            r_()
 
     # -- abstract state (evidence only)
     def abstract(self):
